@@ -331,5 +331,46 @@ CYCLE = {
  },
 }
 
+
+# src/adopt.rs: <Rc as Adopt>::{adopt_unchecked, unadopt} over the mutable heap shim (verus/mheap.rs).
+# The postconditions are the spec-level transition functions adopt_spec / unadopt_spec of verus/lemmas.rs, so
+# that lemma_{adopt,unadopt}_preserves_symmetry apply to what the real text does, for every heap, every
+# multiplicity and every aliasing of the two handles (same handle; two handles to one allocation; distinct).
+_ADOPT_PRE = r"""    requires
+        this.hid == other.hid ==> this.ptr == other.ptr,
+        old(heap).wf(), old(heap).has(this.ptr), old(heap).has(other.ptr),
+        !old(heap).borrowed(this.ptr), !old(heap).borrowed(other.ptr),
+"""
+ADOPT = {
+ "adopt_unchecked": {
+  "params": ["this", "other"],
+  "sig_rewrites": [(r"\(this: &Self, other: &Self\)", "(this: &RcH2, other: &RcH2, heap: &mut MHeap)")],
+  "spec": _ADOPT_PRE + r"""        old(heap).counts_fit(),
+    ensures
+        final(heap).wf(), final(heap).out@ == old(heap).out@,
+        this.hid == other.hid ==> final(heap).view() == old(heap).view().insert(this.ptr, bump(old(heap).view()[this.ptr], ll(other.ptr))),
+        this.hid != other.hid ==> final(heap).view() == adopt_spec(old(heap).view(), this.ptr, other.ptr),
+""",
+  "inserts": [
+   {"at": r"^\s*return;", "pos": "before", "text": r"""        proof { assert(heap.view() =~= old(heap).view().insert(this.ptr, bump(old(heap).view()[this.ptr], ll(other.ptr)))); }"""},
+   {"at": r"\.insert\(Link::backward\(this\.ptr\)\);", "pos": "before", "text": r"""    proof { assert(fl(other.ptr) != bl(this.ptr)); assert(cnt($RECV@, bl(this.ptr)) == cnt(old(heap).table(other.ptr), bl(this.ptr))); }"""},
+  ],
+  "body_end": r"""    proof { assert(heap.view() =~= adopt_spec(old(heap).view(), this.ptr, other.ptr)); }""",
+ },
+ "unadopt": {
+  "params": ["this", "other"],
+  "sig_rewrites": [(r"\(this: &Self, other: &Self\)", "(this: &RcH2, other: &RcH2, heap: &mut MHeap)")],
+  "spec": _ADOPT_PRE + r"""    ensures
+        final(heap).wf(), final(heap).out@ == old(heap).out@,
+        this.hid == other.hid ==> final(heap).view() == old(heap).view().insert(this.ptr, unbump(old(heap).view()[this.ptr], ll(other.ptr))),
+        this.hid != other.hid ==> final(heap).view() == unadopt_spec(old(heap).view(), this.ptr, other.ptr),
+""",
+  "inserts": [
+   {"at": r"^\s*return;", "pos": "before", "text": r"""        proof { assert(heap.view() =~= old(heap).view().insert(this.ptr, unbump(old(heap).view()[this.ptr], ll(other.ptr)))); }"""},
+  ],
+  "body_end": r"""    proof { assert(heap.view() =~= unadopt_spec(old(heap).view(), this.ptr, other.ptr)); }""",
+ },
+}
+
 # rule application counts on the pinned tree; a different count is a lost anchor (exit 2)
 EXPECTED_COUNTS = {}
